@@ -77,7 +77,10 @@ class C05(Check):
             cases.append({'f': f, 'nv': 2, 'sigs': sg, 'past': False, 'n': 5,
                           'chunkings': [{'0': [(0, 5)], '1': [(0, 5)]}, {'0': [(j, j + 1) for j in range(5)], '1': [(j, j + 1) for j in range(5)]},
                                         {'0': [(0, 2), (2, 4), (4, 5)], '1': [(0, 1), (1, 4), (4, 5)]}]})
-        for (f, nv) in items:
+        items = [(f, nv, None) for (f, nv) in items]
+        # division, pow, sqrt, exp, ln, log (exact by construction of the signals)
+        items += [(f, 2, sg) for (f, sg) in dense.fancy_cases(rng, 30 if tier == 'quick' else 500, past_only=True)]
+        for (f, nv, given) in items:
             if fml.size(f) > 20 or not fml.fvars(f):
                 continue
             nv = need_vars(f, nv)
@@ -85,6 +88,9 @@ class C05(Check):
             sigs = []
             late = rng.random() < 0.25
             for i in range(nv):
+                if given is not None:
+                    sigs.append(given[i])
+                    continue
                 s = dense.gen_signal(rng, maxn=7, start0=not (late and rng.random() < 0.6))
                 while len(s) < 2:
                     s = dense.gen_signal(rng, maxn=7, start0=not (late and rng.random() < 0.6))
@@ -195,9 +201,7 @@ class C05(Check):
         # a constant operand of a bounded operator is a signal that starts at 0: with any late variable the window looks before the common start
         late_any = any(c['sigs'][i][0][0] != 0 for i in fml.fvars(c['f']) if i < len(c['sigs']))
         under_timed_const = bool(fml.ops(c['f']) & (fml.TUN | fml.TBIN)) and late_any
-        if const_binary(c['f']):
-            sig['shape'] = 'const_binary'
-        elif late_timed or under_timed_const:
+        if late_timed or under_timed_const:
             sig['shape'] = 'late_start_bounded'
         elif fml.ops(c['f']) & {'oncet', 'histt', 'sincet', 'evt', 'alwt'}:
             sig['shape'] = 'bounded_window'
